@@ -1,7 +1,7 @@
 """C08 - no undefined behaviour or memory error on any generation path (UB classes visible in the code's shape)."""
 from .. import callgraph, cpp2ir, project
 from ..framework import Report
-from ..rules import arrays, inv, vecindex
+from ..rules import arrays, intdiv, inv, vecindex
 
 
 def run(tier, seed):
@@ -20,6 +20,7 @@ def run(tier, seed):
     nv = vecindex.check(rep, prog, lib)
     rep.analysed['std::vector subscripts with a non-literal index'] = nv
     rep.floor('VECTOR.index', nv, 30)
+    rep.analysed['integer/integer divisions'] = intdiv.check(rep, prog, lib)
     rep.analysed['literal subscripts checked'] = nlit
     rep.analysed['counted-loop subscripts checked'] = ncnt
     rep.analysed['integer divisions by a variable'] = nd
